@@ -230,6 +230,12 @@ inductive Outcome where
   | built (log : List Str) (loaded : List Str)
   deriving DecidableEq, Repr
 
+/-- `Builder.Build`: with the builder started in `<root>/src/<w>` the requested
+    targets are resolved with `makePath w` (absolute: from the workspace root,
+    relative: from the work dir); from the workspace root they are node names -/
+def resolveTargets (w : Str) (targets : List Str) : List Str :=
+  if w = [] then targets else targets.map (makePath w)
+
 def run (cfg : Cfg) (ws : Ws) (fuel : Nat) (targets : List Str) : Outcome :=
   match collectAll cfg ws fuel with
   | none => .outOfFuel
